@@ -165,6 +165,10 @@ main(int argc, char *argv[])
 	} else if (argi->ge_flag) {
 		o = OP_GE;
 	}
+	if (argi->from_locale_arg) {
+		/* the expression's names and date/times are input too */
+		setilocale(argi->from_locale_arg);
+	}
 	/* parse the expression */
 	if (argi->nargs == 0U || 
 	    dexpr_parse(&root, argi->args[0U], strlen(argi->args[0U])) < 0) {
@@ -184,9 +188,6 @@ with complex expressions");
 		root->kv->op = o;
 	}
 
-	if (argi->from_locale_arg) {
-		setilocale(argi->from_locale_arg);
-	}
 	if (argi->from_zone_arg &&
 	    (fromz = dt_io_zone(argi->from_zone_arg)) == NULL) {
 		error("\
